@@ -1,5 +1,5 @@
 (* Property C16 - damaged spectrum files are rejected, never read as a different spectrum. *)
-From Sfs Require Import Index Npy Text NpyP TextP NpySpellP.
+From Sfs Require Import Index Npy Text NpyP TextP NpySpellP TextLayoutP.
 Close Scope string_scope. Open Scope N_scope.
 
 (* every strict prefix of a written npy file is rejected *)
@@ -40,4 +40,22 @@ Theorem C16_short_input_has_no_format : forall inp,
   (length inp < 6)%nat -> detect_format inp = None.
 Proof. exact (@detect_short). Qed.
 Print Assumptions C16_short_input_has_no_format.
+
+(* text: acceptance is decided by the number of tokens in the whole remainder of the file, on whichever lines they stand *)
+Theorem C16_text_tokens_counted_wherever_they_stand : forall (line : bytes) (toks seps : list bytes) (lead tail : bytes) sh vals,
+  Forall (fun c => (c =? 10) = false) line ->
+  Forall word toks -> Forall ws_run seps -> all_ws lead -> all_ws tail ->
+  read_text (line ++ 10 :: lead ++ layout toks seps tail) = inl (sh, vals) ->
+  N.of_nat (length toks) = nelements sh /\ length vals = length toks.
+Proof. exact (@read_text_token_count). Qed.
+Print Assumptions C16_text_tokens_counted_wherever_they_stand.
+
+(* ... in particular a complete values line followed by one more token on a later line is rejected *)
+Theorem C16_text_surplus_line_rejected : forall (line : bytes) (toks : list bytes) (extra : bytes) sh,
+  Forall (fun c => (c =? 10) = false) line -> Forall (fun c => c < 128) line ->
+  Forall word toks -> Forall (Forall (fun c => c < 128)) toks -> word extra -> Forall (fun c => c < 128) extra ->
+  read_text (line ++ 10 :: join [32] toks ++ [10]) = inl (sh, map (fun t => match parse_f64 t with Some v => v | None => 0 end) toks) ->
+  exists e, read_text (line ++ 10 :: join [32] toks ++ [10] ++ extra ++ [10]) = inr e.
+Proof. exact (@read_text_surplus_line_rejected). Qed.
+Print Assumptions C16_text_surplus_line_rejected.
 
